@@ -291,6 +291,11 @@ def main(argv=None):
 def replay(prop, mod, path):
   with open(path) as f:
     rec = json.load(f)
+  extra = getattr(mod, 'EXTRA_XLA_FLAGS', '')
+  if extra:
+    os.environ['XLA_FLAGS'] = (
+        extra + ' --xla_cpu_multi_thread_eigen=false '
+        'intra_op_parallelism_threads=1')
   common.setup_env()
   common.setup_jax(getattr(mod, 'X64', True))
   mon = common.Mon(prop)
